@@ -11,6 +11,7 @@ import (
 	"sort"
 	"strings"
 
+	"golang.org/x/tools/go/callgraph"
 	"golang.org/x/tools/go/ssa"
 )
 
@@ -371,6 +372,15 @@ func globalOf(v ssa.Value) *ssa.Global {
 // return }` recognisable as "f() always ran on the surviving path").  The returned slice
 // describes the offending path (block comments) for the report.
 func existsPathAvoiding(fn *ssa.Function, target ssa.Instruction, gen func(ssa.Instruction) bool, edgeGen func(b *ssa.BasicBlock, i int) bool) (bool, []string) {
+	return existsPathFromAvoiding(fn, nil, target, gen, edgeGen)
+}
+
+// existsPathFromAvoiding is existsPathAvoiding for paths that pass through the instruction
+// `from` first (nil: the function entry): only what happens after the last execution of `from`
+// counts (gen instructions and gen edges met before it are forgotten, and the target only counts
+// once `from` was executed), while the assumptions about repeatedly tested values are collected
+// from the function entry on.
+func existsPathFromAvoiding(fn *ssa.Function, from, target ssa.Instruction, gen func(ssa.Instruction) bool, edgeGen func(b *ssa.BasicBlock, i int) bool) (bool, []string) {
 	if len(fn.Blocks) == 0 {
 		return false, nil
 	}
@@ -429,8 +439,9 @@ func existsPathAvoiding(fn *ssa.Function, target ssa.Instruction, gen func(ssa.I
 		}
 	}
 	type key struct {
-		b   *ssa.BasicBlock
-		sig string
+		b      *ssa.BasicBlock
+		sig    string
+		passed bool
 	}
 	failed := map[key]bool{}
 	var path []string
@@ -442,26 +453,29 @@ func existsPathAvoiding(fn *ssa.Function, target ssa.Instruction, gen func(ssa.I
 		sort.Strings(ks)
 		return strings.Join(ks, ",")
 	}
-	var dfs func(b *ssa.BasicBlock, as map[ssa.Value]bool, onPath map[*ssa.BasicBlock]bool) bool
-	dfs = func(b *ssa.BasicBlock, as map[ssa.Value]bool, onPath map[*ssa.BasicBlock]bool) bool {
-		k := key{b, sigOf(as)}
+	var dfs func(b *ssa.BasicBlock, as map[ssa.Value]bool, passed bool) bool
+	dfs = func(b *ssa.BasicBlock, as map[ssa.Value]bool, passed bool) bool {
+		k := key{b, sigOf(as), passed}
 		if failed[k] {
 			return false
 		}
 		failed[k] = true // plain graph search over (block, assumptions) states
 		for _, in := range b.Instrs {
-			if in == target {
+			if in == target && passed {
 				path = append(path, b.String())
 				return true
 			}
-			if gen != nil && gen(in) {
-				failed[k] = true
+			if in == from {
+				passed = true
+				continue
+			}
+			if passed && gen != nil && gen(in) {
 				return false
 			}
 		}
 		t, hasTest := tests[b]
 		for i, s := range b.Succs {
-			if edgeGen != nil && edgeGen(b, i) {
+			if passed && edgeGen != nil && edgeGen(b, i) {
 				continue
 			}
 			as2 := as
@@ -479,15 +493,14 @@ func existsPathAvoiding(fn *ssa.Function, target ssa.Instruction, gen func(ssa.I
 					as2[t.v] = zero
 				}
 			}
-			if dfs(s, as2, onPath) {
+			if dfs(s, as2, passed) {
 				path = append(path, b.String())
 				return true
 			}
 		}
-		failed[k] = true
 		return false
 	}
-	found := dfs(fn.Blocks[0], map[ssa.Value]bool{}, map[*ssa.BasicBlock]bool{})
+	found := dfs(fn.Blocks[0], map[ssa.Value]bool{}, from == nil)
 	// reverse path
 	for i, j := 0, len(path)-1; i < j; i, j = i+1, j-1 {
 		path[i], path[j] = path[j], path[i]
@@ -632,6 +645,467 @@ func shortCircuitPredsFor(p, succ *ssa.BasicBlock) []*ssa.BasicBlock {
 			return nil
 		}
 		out = append(out, via...)
+	}
+	return out
+}
+
+// ---- seeing through "packed" values: fields of local struct literals and parameters of helpers
+
+// localFieldValue: v is a load of field F of a local struct whose content is known: built field
+// by field (a composite literal or a `var t T; t.F = x` local whose address does not escape) with
+// F stored exactly once in a block that dominates the load, or assigned as a whole exactly once
+// from a value whose field is known (the result of a helper that returns such a literal, a
+// parameter of a helper with one call site): returns the value of the field.  The result may
+// belong to another function.
+func localFieldValue(v ssa.Value) (ssa.Value, bool) {
+	u, ok := v.(*ssa.UnOp)
+	if !ok || u.Op != token.MUL {
+		return nil, false
+	}
+	fa, ok := u.X.(*ssa.FieldAddr)
+	if !ok {
+		return nil, false
+	}
+	al, ok := fa.X.(*ssa.Alloc)
+	if !ok {
+		return nil, false
+	}
+	return fieldOfLocal(al, fa.Field, u, 0)
+}
+
+func fieldOfLocal(al *ssa.Alloc, field int, at ssa.Instruction, depth int) (ssa.Value, bool) {
+	if st := localFieldStore(al, field); st != nil {
+		if !(st.Block() == at.Block() || st.Block().Dominates(at.Block())) {
+			return nil, false
+		}
+		if st.Block() == at.Block() {
+			// the store must come first
+			for _, in := range at.Block().Instrs {
+				if in == ssa.Instruction(st) {
+					break
+				}
+				if in == at {
+					return nil, false
+				}
+			}
+		}
+		return st.Val, true
+	}
+	if whole := wholeStructStore(al); whole != nil && (whole.Block() == at.Block() || whole.Block().Dominates(at.Block())) {
+		return fieldOfStructValue(whole.Val, field, depth+1)
+	}
+	return nil, false
+}
+
+// wholeStructStore: the local struct is assigned exactly once, as a whole, and otherwise only
+// read (as a whole or field-wise).
+func wholeStructStore(al *ssa.Alloc) *ssa.Store {
+	if al.Referrers() == nil {
+		return nil
+	}
+	if _, isStruct := deref(al.Type()).Underlying().(*types.Struct); !isStruct {
+		return nil
+	}
+	var st *ssa.Store
+	for _, ref := range *al.Referrers() {
+		switch x := ref.(type) {
+		case *ssa.UnOp, *ssa.DebugRef:
+		case *ssa.Store:
+			if x.Addr != ssa.Value(al) || st != nil {
+				return nil
+			}
+			st = x
+		case *ssa.FieldAddr:
+			if x.Referrers() == nil {
+				continue
+			}
+			for _, r2 := range *x.Referrers() {
+				switch r2.(type) {
+				case *ssa.UnOp, *ssa.DebugRef:
+				default:
+					return nil
+				}
+			}
+		default:
+			return nil
+		}
+	}
+	return st
+}
+
+// fieldOfStructValue: the value of field `field` of the struct value sv — a load of a local
+// with known content, the result of a package helper all of whose returns agree on the field (a
+// single return of a literal, typically), or a struct parameter of a helper with one call site.
+func fieldOfStructValue(sv ssa.Value, field int, depth int) (ssa.Value, bool) {
+	if depth > 4 {
+		return nil, false
+	}
+	switch x := sv.(type) {
+	case *ssa.UnOp:
+		if x.Op != token.MUL {
+			return nil, false
+		}
+		if al, ok := x.X.(*ssa.Alloc); ok {
+			return fieldOfLocal(al, field, x, depth)
+		}
+	case *ssa.Call:
+		g := x.Call.StaticCallee()
+		if g == nil || g.Pkg == nil || g.Pkg.Pkg.Path() != twigPath || len(g.Blocks) == 0 || g.Signature.Results().Len() != 1 {
+			return nil, false
+		}
+		var out ssa.Value
+		ok := true
+		instrsOf(g, func(in ssa.Instruction) {
+			ret, isRet := in.(*ssa.Return)
+			if !isRet || !ok {
+				return
+			}
+			fv, found := fieldOfStructValue(retResults(ret)[0], field, depth+1)
+			if !found || (out != nil && !sameValue(out, fv)) {
+				ok = false
+				return
+			}
+			out = fv
+		})
+		if ok && out != nil {
+			return out, true
+		}
+	case *ssa.Parameter:
+		if cvs, ok := callerValues(x, -1); ok && len(cvs) == 1 {
+			return fieldOfStructValue(cvs[0].val, field, depth+1)
+		}
+	}
+	return nil, false
+}
+
+// localFieldStore: the only store into field `field` of the local struct al, provided the local
+// is only ever accessed field-wise or loaded as a whole (no whole-struct store, no escaping
+// address).
+func localFieldStore(al *ssa.Alloc, field int) *ssa.Store {
+	if al.Referrers() == nil {
+		return nil
+	}
+	if _, isStruct := deref(al.Type()).Underlying().(*types.Struct); !isStruct {
+		return nil
+	}
+	var st *ssa.Store
+	for _, ref := range *al.Referrers() {
+		switch x := ref.(type) {
+		case *ssa.UnOp, *ssa.DebugRef:
+		case *ssa.FieldAddr:
+			if x.Referrers() == nil {
+				continue
+			}
+			for _, r2 := range *x.Referrers() {
+				switch y := r2.(type) {
+				case *ssa.Store:
+					if y.Addr != ssa.Value(x) {
+						return nil // the field's address is stored somewhere
+					}
+					if x.Field == field {
+						if st != nil {
+							return nil
+						}
+						st = y
+					}
+				case *ssa.UnOp, *ssa.DebugRef:
+				case *ssa.FieldAddr, *ssa.IndexAddr:
+					// nested access: fine for other fields, opaque for ours
+					if x.Field == field {
+						return nil
+					}
+				default:
+					if x.Field == field {
+						return nil
+					}
+				}
+			}
+		default:
+			return nil
+		}
+	}
+	return st
+}
+
+// paramOrigin: v is a parameter of its function, or field `field` of a struct-typed parameter
+// (read directly or through the slot go/ssa spills a value receiver into); field is -1 for the
+// parameter itself.
+func paramOrigin(v ssa.Value) (p *ssa.Parameter, field int, ok bool) {
+	switch x := v.(type) {
+	case *ssa.Parameter:
+		return x, -1, true
+	case *ssa.Field:
+		if pp, isP := unspill(x.X).(*ssa.Parameter); isP {
+			return pp, x.Field, true
+		}
+	case *ssa.UnOp:
+		if x.Op != token.MUL {
+			return nil, 0, false
+		}
+		if fa, isFA := x.X.(*ssa.FieldAddr); isFA {
+			if al, isAl := fa.X.(*ssa.Alloc); isAl && al.Referrers() != nil {
+				// the spill slot of a struct parameter: one whole store of the parameter, no field stores
+				var pp *ssa.Parameter
+				for _, ref := range *al.Referrers() {
+					switch y := ref.(type) {
+					case *ssa.Store:
+						q, isP := y.Val.(*ssa.Parameter)
+						if !isP || y.Addr != ssa.Value(al) || pp != nil {
+							return nil, 0, false
+						}
+						pp = q
+					case *ssa.FieldAddr:
+						if y.Referrers() != nil {
+							for _, r2 := range *y.Referrers() {
+								if s, isSt := r2.(*ssa.Store); isSt && s.Addr == ssa.Value(y) {
+									return nil, 0, false
+								}
+							}
+						}
+					}
+				}
+				if pp != nil {
+					return pp, fa.Field, true
+				}
+			}
+		}
+	}
+	return nil, 0, false
+}
+
+type callerVal struct {
+	caller *ssa.Function
+	site   ssa.CallInstruction
+	val    ssa.Value
+}
+
+// callerValues: what the in-package static call sites of the unexported function that owns
+// parameter p pass for it (field >= 0: what they stored into that field of the struct they pass).
+// ok is false if some caller cannot be resolved (dynamic use of the function, exported API,
+// struct not built locally).
+func callerValues(p *ssa.Parameter, field int) (out []callerVal, ok bool) {
+	fn := p.Parent()
+	if curWorld == nil || fn == nil || fn.Object() == nil || fn.Object().Exported() {
+		return nil, false
+	}
+	idx := -1
+	for i, fp := range fn.Params {
+		if fp == p {
+			idx = i
+		}
+	}
+	in := realInEdges(fn)
+	if idx < 0 || len(in) == 0 {
+		return nil, false
+	}
+	for _, e := range in {
+		if e.Site == nil || e.Caller.Func.Package() != fn.Package() {
+			return nil, false
+		}
+		cc := e.Site.Common()
+		if cc.IsInvoke() || cc.StaticCallee() != fn || idx >= len(cc.Args) {
+			return nil, false
+		}
+		if _, isGo := e.Site.(*ssa.Go); isGo {
+			return nil, false
+		}
+		arg := cc.Args[idx]
+		if field >= 0 {
+			fv, found := fieldOfStructValue(arg, field, 0)
+			if !found {
+				return nil, false
+			}
+			arg = fv
+		}
+		out = append(out, callerVal{e.Caller.Func, e.Site, arg})
+	}
+	return out, true
+}
+
+// origin follows a value back through single-store locals, fields of local struct literals and —
+// for unexported helpers with exactly one call site — parameters (and fields of struct
+// parameters) to the value the caller computed.  The result may belong to another function; it
+// is meant for identity comparisons, not for dominance arguments.
+func origin(v ssa.Value) ssa.Value {
+	for i := 0; i < 8; i++ {
+		n := unspill(v)
+		if fv, ok := localFieldValue(n); ok {
+			n = fv
+		} else if p, field, ok := paramOrigin(n); ok {
+			if cvs, ok := callerValues(p, field); ok && len(cvs) == 1 {
+				n = cvs[0].val
+			}
+		}
+		if n == v {
+			return v
+		}
+		v = n
+	}
+	return v
+}
+
+// ---- conditions and boolean helpers that imply an atomic fact
+
+// callMatcher decides whether a call (callee, all operands incl. receiver) is the one looked for.
+type callMatcher func(f *types.Func, args []ssa.Value) bool
+
+// factMatcher decides whether "the atomic condition v has the value truth" is the fact looked for;
+// resolve maps an operand of v (a value of the function v lives in) to the terms of the
+// function the question was asked in (identity there; inside a helper, parameters are replaced
+// by the caller's arguments and fields of struct parameters by what the caller stored there).
+type factMatcher func(v ssa.Value, truth bool, resolve func(ssa.Value) ssa.Value) bool
+
+// trueImpliesCall: v is true only if a call accepted by match returned true: the call itself, or
+// a call of a bool helper of the package every true result of which implies such a call on the
+// helper's corresponding parameters (`func (o opts) tolerates(err error) bool { return o.x &&
+// errors.Is(err, ErrNotFound) }`).
+func trueImpliesCall(v ssa.Value, match callMatcher, depth int) bool {
+	return condImplies(v, true, func(x ssa.Value, truth bool, resolve func(ssa.Value) ssa.Value) bool {
+		c, ok := x.(*ssa.Call)
+		if !ok || !truth {
+			return false
+		}
+		f := calleeFunc(c)
+		if f == nil {
+			return false
+		}
+		args := make([]ssa.Value, len(c.Call.Args))
+		for i, a := range c.Call.Args {
+			args[i] = resolve(a)
+		}
+		return match(f, args)
+	})
+}
+
+// condImplies: the condition v having the value truth implies a fact accepted by match: v itself
+// (after stripping negations), a conjunct of v (v an && value that is true, an || value that is
+// false), or — v a call of a bool helper of the package — a fact that holds at every return of
+// the helper that can return that value.
+func condImplies(v ssa.Value, truth bool, match factMatcher) bool {
+	return condImpliesR(v, truth, match, func(x ssa.Value) ssa.Value { return x }, 0)
+}
+
+func condImpliesR(v ssa.Value, truth bool, match factMatcher, resolve func(ssa.Value) ssa.Value, depth int) bool {
+	var facts []condFact
+	expandCond(v, truth, &facts, 0)
+	for _, cf := range facts {
+		if match(cf.v, cf.truth, resolve) {
+			return true
+		}
+		c, ok := cf.v.(*ssa.Call)
+		if !ok {
+			continue
+		}
+		g := c.Call.StaticCallee()
+		if g == nil || depth > 2 || g.Pkg == nil || g.Pkg.Pkg.Path() != twigPath || len(g.Blocks) == 0 {
+			continue
+		}
+		if g.Signature.Results().Len() != 1 || !types.Identical(g.Signature.Results().At(0).Type().Underlying(), types.Typ[types.Bool]) {
+			continue
+		}
+		if helperImplies(c, g, cf.truth, match, resolve, depth) {
+			return true
+		}
+	}
+	return false
+}
+
+// helperImplies: every return of g that can return `truth` implies the fact.
+func helperImplies(c *ssa.Call, g *ssa.Function, truth bool, match factMatcher, resolve func(ssa.Value) ssa.Value, depth int) bool {
+	sub := func(x ssa.Value) ssa.Value {
+		if p, field, ok := paramOrigin(unspill(x)); ok && p.Parent() == g {
+			for k, gp := range g.Params {
+				if gp != p || k >= len(c.Call.Args) {
+					continue
+				}
+				arg := c.Call.Args[k]
+				if field < 0 {
+					return resolve(arg)
+				}
+				if fv, found := fieldOfStructValue(arg, field, 0); found {
+					return resolve(fv)
+				}
+			}
+		}
+		return x
+	}
+	fl := &boolFlow{fn: g, entry: false}
+	fl.edge = func(b *ssa.BasicBlock, i int) bool {
+		for _, cf := range edgeFacts(b, i) {
+			if condImpliesR(cf.v, cf.truth, match, sub, depth+1) {
+				return true
+			}
+		}
+		return false
+	}
+	fl.solve()
+	var implied func(res ssa.Value, at ssa.Instruction, d int) bool
+	implied = func(res ssa.Value, at ssa.Instruction, d int) bool {
+		if isConstBool(res, !truth) {
+			return true
+		}
+		if fl.at(at) {
+			return true
+		}
+		if condImpliesR(res, truth, match, sub, depth+1) {
+			return true
+		}
+		if ph, isPhi := res.(*ssa.Phi); isPhi && d < 4 {
+			for k, e := range ph.Edges {
+				pred := ph.Block().Preds[k]
+				if isConstBool(e, !truth) {
+					continue
+				}
+				st := fl.out(pred, fl.in[pred])
+				if !st {
+					// the edge from pred into the phi's block may itself establish the fact
+					for si, sb := range pred.Succs {
+						if sb == ph.Block() && fl.edge(pred, si) {
+							st = true
+						}
+					}
+				}
+				if st {
+					continue
+				}
+				if !implied(e, pred.Instrs[len(pred.Instrs)-1], d+1) {
+					return false
+				}
+			}
+			return true
+		}
+		return false
+	}
+	all, n := true, 0
+	instrsOf(g, func(in ssa.Instruction) {
+		ret, isRet := in.(*ssa.Return)
+		if !isRet {
+			return
+		}
+		n++
+		if !implied(retResults(ret)[0], in, 0) {
+			all = false
+		}
+	})
+	return all && n > 0
+}
+
+// realInEdges: the call-graph edges into fn, without those from go/ssa's synthetic wrappers
+// (pointer-receiver wrappers of value methods, thunks, bound-method closures) that are
+// themselves never called.
+func realInEdges(fn *ssa.Function) []*callgraph.Edge {
+	node := curWorld.callgraph().Nodes[fn]
+	if node == nil {
+		return nil
+	}
+	var out []*callgraph.Edge
+	for _, e := range node.In {
+		if c := e.Caller.Func; c != nil && c.Synthetic != "" && c.Pkg == nil || c != nil && c.Synthetic != "" && strings.Contains(c.Synthetic, "wrapper") {
+			if cn := curWorld.callgraph().Nodes[c]; cn == nil || len(cn.In) == 0 {
+				continue
+			}
+		}
+		out = append(out, e)
 	}
 	return out
 }
